@@ -901,6 +901,13 @@ class WhenRef:
             return st["tsw"] == "on"
         raise KeyError(unit)
 
+    def conds_of(self, unit):
+        u = unit.split(":")[0]
+        parts = {"level": ("mode", "auto"), "label": ("mode", "auto"), "ilev": ("mode", "auto", "inner"),
+                 "ival": ("mode", "auto", "inner"), "value": ("mode", "manual"), "mdef": ("mode", "manual"), "ug": ("uses",),
+                 "aug1": ("aug",), "aug2": ("aug",)}.get(u, (u,))
+        return [self.c[p] for p in parts if self.c.get(p)]
+
     def false_units(self, st):
         return [u for u, _ in self.explicit_units(st) if not self.holds(st, u)]
 
@@ -1128,8 +1135,22 @@ class WhenDefaults(oracles_mod.Oracle):
     def edit(self, rng, ref, st, s, flips, what):
         c, E = ref.c, st["E"]
         if what == "ctl":
-            # a controlling leaf
+            # a controlling leaf; often one that turns the when of an explicit node false
             k = rng.choice(["sw", "sw", "x", "ll", "ll"] + (["tsw"] if ref.cfg["top"] else []))
+            live = [cd for u, _ in ref.explicit_units(st) if u != "tdl" and ref.holds(st, u) for cd in ref.conds_of(u)]
+            if live and rng.random() < 0.6:
+                cd = rng.choice(live)
+                if cd == "sw":
+                    flips.append(("/m1:box/sw", st["sw"]))
+                    self.emit(ref, st, s, "/m1:box/sw", rng.choice(["off", None]))
+                elif cd == "nx":
+                    flips.append(("/m1:box/x", None))
+                    self.emit(ref, st, s, "/m1:box/x", "here")
+                else:
+                    for v in list(st["ll"])[1:]:
+                        flips.append(("/m1:box/ll[.='%d']" % v, "~"))
+                        self.emit(ref, st, s, "/m1:box/ll[.='%d']" % v, None)
+                return
             if k in ("sw", "tsw"):
                 p = "/m1:box/sw" if k == "sw" else "/m1:tsw"
                 new = rng.choice([v for v in ("on", "off", None) if v != st[k]])
